@@ -31,10 +31,13 @@ Definition rd0 := {| next := 0; ranges := []; ended := false |}.
 Record st := {
   ws : list (skey * wr);
   rs : list (skey * rd);
-  dg_sent : list (key * Z);          (* datagrams accepted by send, per (ep, idx) *)
+  dg_sent : list (key * list Z);     (* ids of datagrams accepted by send, per (ep, idx) *)
   dg_seen : list (key * list Z);     (* ids delivered, per (ep, idx) *)
   ordered : bool;
   sbuf : Z;
+  must : list (Z * Z * Z);           (* small datagrams accepted for sending, not yet seen delivered *)
+  deliver_small : bool;
+  settle_from : Z;                    (* small datagrams accepted from this instant on must arrive *)
 }.
 
 Definition overlaps (a b : Z) (l : list (Z * Z)) : bool :=
@@ -56,15 +59,15 @@ Definition step (s : st) (r : list Z) : option st :=
     let w := match sget (ws s) k with Some w => w | None => wr0 end in
     if negb (fld r 6 =? written w) || (fld r 8 <? acc) then None
     else Some {| ws := sset (ws s) k {| written := written w + acc; fin_at := fin_at w; reset_code := reset_code w |};
-                 rs := rs s; dg_sent := dg_sent s; dg_seen := dg_seen s; ordered := ordered s; sbuf := sbuf s |}
+                 rs := rs s; dg_sent := dg_sent s; dg_seen := dg_seen s; ordered := ordered s; sbuf := sbuf s; must := must s; deliver_small := deliver_small s; settle_from := settle_from s |}
   else if op =? 3 then
     let w := match sget (ws s) k with Some w => w | None => wr0 end in
     Some {| ws := sset (ws s) k {| written := written w; fin_at := Some (fld r 6); reset_code := reset_code w |};
-            rs := rs s; dg_sent := dg_sent s; dg_seen := dg_seen s; ordered := ordered s; sbuf := sbuf s |}
+            rs := rs s; dg_sent := dg_sent s; dg_seen := dg_seen s; ordered := ordered s; sbuf := sbuf s; must := must s; deliver_small := deliver_small s; settle_from := settle_from s |}
   else if op =? 4 then
     let w := match sget (ws s) k with Some w => w | None => wr0 end in
     Some {| ws := sset (ws s) k {| written := written w; fin_at := fin_at w; reset_code := Some (fld r 6) |};
-            rs := rs s; dg_sent := dg_sent s; dg_seen := dg_seen s; ordered := ordered s; sbuf := sbuf s |}
+            rs := rs s; dg_sent := dg_sent s; dg_seen := dg_seen s; ordered := ordered s; sbuf := sbuf s; must := must s; deliver_small := deliver_small s; settle_from := settle_from s |}
   else if op =? 5 then
     (* read chunk (offset, len, content flag, error) *)
     if negb (fld r 9 =? 0) then
@@ -84,7 +87,7 @@ Definition step (s : st) (r : list Z) : option st :=
     if good then
       Some {| ws := ws s;
               rs := sset (rs s) k {| next := off + len; ranges := (off, off + len) :: ranges d; ended := false |};
-              dg_sent := dg_sent s; dg_seen := dg_seen s; ordered := ordered s; sbuf := sbuf s |}
+              dg_sent := dg_sent s; dg_seen := dg_seen s; ordered := ordered s; sbuf := sbuf s; must := must s; deliver_small := deliver_small s; settle_from := settle_from s |}
     else None
   else if op =? 6 then
     (* end of stream after `total` bytes: the writer finished exactly there and all was read *)
@@ -95,7 +98,7 @@ Definition step (s : st) (r : list Z) : option st :=
     match fin_at w with
     | Some f => if (f =? total) && (covered =? total) && negb (ended d) then
                   Some {| ws := ws s; rs := sset (rs s) k {| next := next d; ranges := ranges d; ended := true |};
-                          dg_sent := dg_sent s; dg_seen := dg_seen s; ordered := ordered s; sbuf := sbuf s |}
+                          dg_sent := dg_sent s; dg_seen := dg_seen s; ordered := ordered s; sbuf := sbuf s; must := must s; deliver_small := deliver_small s; settle_from := settle_from s |}
                 else None
     | None => None
     end
@@ -105,14 +108,14 @@ Definition step (s : st) (r : list Z) : option st :=
     match reset_code w with
     | Some c => if (c =? fld r 6) && negb (ended d) then
                   Some {| ws := ws s; rs := sset (rs s) k {| next := next d; ranges := ranges d; ended := true |};
-                          dg_sent := dg_sent s; dg_seen := dg_seen s; ordered := ordered s; sbuf := sbuf s |}
+                          dg_sent := dg_sent s; dg_seen := dg_seen s; ordered := ordered s; sbuf := sbuf s; must := must s; deliver_small := deliver_small s; settle_from := settle_from s |}
                 else None
     | None => None
     end
   else if op =? 8 then
     let d := match sget (rs s) k with Some d => d | None => rd0 end in
     Some {| ws := ws s; rs := sset (rs s) k {| next := next d; ranges := ranges d; ended := true |};
-            dg_sent := dg_sent s; dg_seen := dg_seen s; ordered := ordered s; sbuf := sbuf s |}
+            dg_sent := dg_sent s; dg_seen := dg_seen s; ordered := ordered s; sbuf := sbuf s; must := must s; deliver_small := deliver_small s; settle_from := settle_from s |}
   else if op =? 9 then
     (* datagram send(id, size, result, max_size, buffer space) *)
     let res := fld r 7 in
@@ -120,10 +123,12 @@ Definition step (s : st) (r : list Z) : option st :=
     let mx := fld r 8 in
     if res =? 0 then
       if (0 <=? mx) && (size <=? mx) then
-        let n := match aget (dg_sent s) (e, idx) with Some n => n | None => 0 end in
-        if sid =? n then
-          Some {| ws := ws s; rs := rs s; dg_sent := aset (dg_sent s) (e, idx) (n + 1);
-                  dg_seen := dg_seen s; ordered := ordered s; sbuf := sbuf s |}
+        let l := match aget (dg_sent s) (e, idx) with Some l => l | None => [] end in
+        if negb (existsb (Z.eqb sid) l) then
+          Some {| ws := ws s; rs := rs s; dg_sent := aset (dg_sent s) (e, idx) (sid :: l);
+                  dg_seen := dg_seen s; ordered := ordered s; sbuf := sbuf s;
+                  must := if (size <=? 1100) && (settle_from s <=? rtime r) then (e, idx, sid) :: must s else must s;
+                  deliver_small := deliver_small s; settle_from := settle_from s |}
         else None
       else None
     else if res =? 3 then
@@ -133,11 +138,13 @@ Definition step (s : st) (r : list Z) : option st :=
   else if op =? 10 then
     (* datagram received: intact, sent by the peer, not delivered before *)
     let id := sid in
-    let n := match aget (dg_sent s) (peer e, idx) with Some n => n | None => 0 end in
+    let l := match aget (dg_sent s) (peer e, idx) with Some l => l | None => [] end in
     let seen := match aget (dg_seen s) (e, idx) with Some l => l | None => [] end in
-    if (fld r 7 =? 1) && (0 <=? id) && (id <? n) && negb (existsb (Z.eqb id) seen) then
+    if (fld r 7 =? 1) && existsb (Z.eqb id) l && negb (existsb (Z.eqb id) seen) then
       Some {| ws := ws s; rs := rs s; dg_sent := dg_sent s;
-              dg_seen := aset (dg_seen s) (e, idx) (id :: seen); ordered := ordered s; sbuf := sbuf s |}
+              dg_seen := aset (dg_seen s) (e, idx) (id :: seen); ordered := ordered s; sbuf := sbuf s;
+              must := filter (fun k => negb (skey_eqb k (peer e, idx, id))) (must s);
+              deliver_small := deliver_small s; settle_from := settle_from s |}
     else None
   else Some s.
 
@@ -146,8 +153,16 @@ Definition step' (s : st) (r : list Z) : option st :=
   if (tag r =? 13) && (fld r 2 =? 7) then
     Some {| ws := filter (fun kv => negb ((let '(e, i, _) := fst kv in (e =? 0) && (i =? fld r 3)))) (ws s);
             rs := rs s; dg_sent := filter (fun kv => negb (key_eqb (fst kv) (0, fld r 3))) (dg_sent s);
-            dg_seen := dg_seen s; ordered := ordered s; sbuf := sbuf s |}
+            dg_seen := dg_seen s; ordered := ordered s; sbuf := sbuf s; must := must s; deliver_small := deliver_small s; settle_from := settle_from s |}
+  else if (tag r =? 13) && (fld r 2 =? 4) then
+    (* the link MTU changed: give the connection three seconds to notice and fall back *)
+    Some {| ws := ws s; rs := rs s; dg_sent := dg_sent s; dg_seen := dg_seen s; ordered := ordered s;
+            sbuf := sbuf s; must := []; deliver_small := deliver_small s; settle_from := rtime r + 3000000 |}
+  else if (tag r =? 10) && deliver_small s then
+    (* on a loss-free path every small datagram that send() accepted reaches the peer: a datagram
+       stuck at the head of the queue (e.g. one that no longer fits the path) must not hold it back *)
+    match must s with [] => Some s | _ => None end
   else step s r.
 
 Definition monitor (i : ops) (o : outs) : option Z :=
-  snd (run_from step' 0 {| ws := []; rs := []; dg_sent := []; dg_seen := []; ordered := negb (param i 14 1 =? 0); sbuf := param i 51 65536 |} o).
+  snd (run_from step' 0 {| ws := []; rs := []; dg_sent := []; dg_seen := []; ordered := negb (param i 14 1 =? 0); sbuf := param i 51 65536; must := []; deliver_small := param i 903 0 =? 1; settle_from := 0 |} o).
